@@ -6,7 +6,7 @@ GLOBAL = [
     "A4 the prelude specs of std/hashbrown/fmt and the adapter helpers state the documented behaviour",
     "A5 derived Clone/PartialEq/Eq/Hash/Default are structural (external_derive)",
     "A6 machine arithmetic is NOT idealised: usize/isize overflow is an obligation; the target pointer width is the symbolic pointer_size field",
-    "A7 the backend (src/backends/rust.rs: quote!/syn/prettyplease), the parser (syn), lib.rs file handling and rustc itself are outside the verified text; backend and lib.rs are only SAMPLED by the bounded stand-in (coverage.bounded_differential_check.backend_stand_in), the 'not_covered' items below are not proved",
+    "A7 the backend (src/backends/rust.rs: quote!/syn/prettyplease; the one exception is the type printer fully_qualified_type_ref(_impl)/fully_qualified_pointee_impl, which is verified), the parser (syn), lib.rs file handling and rustc itself are outside the verified text; backend and lib.rs are only SAMPLED by the bounded stand-in (coverage.bounded_differential_check.backend_stand_in), the 'not_covered' items below are not proved",
 ]
 PROPS = {}
 
